@@ -15,6 +15,25 @@ def classify(d):
         kind, " ".join(op[1:]), d["impl"], d["other"])
 
 
+def no_task_for_an_ended_session(ctx, exe):
+    """a miner whose session is over counts as disconnecting at once, with or without tasks in its queue: the allocator (real
+    Allocator over real Schedulers, C11's harness with `gone` ops) must not park a task on it between the end of the session and
+    its removal from the list — such a task would never be served, ended or signalled"""
+    rc, out = L.run_harness(ctx, exe, "TestVerifC11$", env={"VERIF_N": 400 if ctx.tier == "quick" else 4000}, timeout=900)
+    if rc != 0:
+        ctx.tie_failures.append("allocator harness run failed (rc=%d): %s" % (rc, out[-300:]))
+        return 0
+    cases = dict(L.parse_cases(ctx.out + "/c11.impl.txt"))
+    for case, c in L.run_monitor(ctx, "c11", "c11.impl.txt"):
+        body, _, op = c.partition(" @ ")
+        if body.startswith("PROP ") and "ineligible miner" in body and any(l.startswith("> gone") for l in cases.get(case, [])):
+            L.violation(ctx, "c07:task-parked-on-a-miner-whose-session-is-over", body[5:] + " @ " + op + " — after the miner's session had ended (`gone`): the task is never served nor ended",
+                        {"clause": "when the miner disconnects every queued task is told; nothing is queued on a session that is over", "case": case,
+                         "ops": [l for l in cases.get(case, []) if l.startswith("> ")], "how_to_replay": "bin/check C11 --replay <this file>"})
+            break
+    return sum(1 for ls in cases.values() for l in ls if l.startswith("> gone"))
+
+
 def run(ctx):
     ctx.trusted_base += [
         "correspondence harness harness/allocator/verif_c07_test.go: real Scheduler.Run/mainLoop/taskLoop + TaskList over a fake StratumProxyInterface under synctest virtual time, quiescence (synctest.Wait) after every event; raw TaskList op sequences (thorough: all sequences of length <= 6 over 6 ops)",
@@ -96,6 +115,7 @@ def run(ctx):
         if h.endswith("scheduler"):
             return sum(1 for l in lines if l.startswith("< onend")) >= 1 and any(l.startswith("< setdest") and l.endswith(" 1") for l in lines)
         return any(l.startswith("> tlcancel") for l in lines) or any(l.startswith("> tllock") for l in lines)
+    ctx.coverage["ended_sessions_in_allocator_histories"] = no_task_for_an_ended_session(ctx, exe)
     ctx.coverage.update({
         "evaluations": len(allcases), "distinct_nontrivial": L.distinct_count(allcases, nontrivial),
         "rule": "seeded event histories (add incl. bursts of adjacent tasks of one contract and already expired deadlines, remove-by-contract, shares summing exactly to / overshooting the work amount, time advances onto deadlines +-1ns, proxy exit with destination error / other error) on the real Scheduler under virtual time; raw TaskList sequences. Non-trivial scheduler case: at least one task put in service and one ended; distinct by op list",
